@@ -15,6 +15,7 @@ from typing import Dict, Optional
 from cdd.shared.pure_utils import (
     PY_GTE_3_8,
     PY_GTE_3_9,
+    code_quoted,
     count_iter_items,
     location_within,
     none_types,
@@ -179,7 +180,25 @@ def extract_default(
 
     start_rest_offset = _end_idx + len(default)
 
-    default = default.strip(" \t`")
+    default = default.strip(" \t")
+    if code_quoted(default) and default.strip("`") not in frozenset(
+        ("None", "(None)")
+    ):
+        # An expression written in code quotes is carried as is; it is not a literal to evaluate
+        return (
+            _parse_out_default_and_doc(
+                _start_idx,
+                start_rest_offset,
+                "",
+                line,
+                rstrip_default,
+                None,
+                default_end_offset,
+                emit_default_doc,
+            )[0],
+            default,
+        )
+    default = default.strip("`")
 
     return _parse_out_default_and_doc(
         _start_idx,
